@@ -192,7 +192,7 @@ def cases(tier, seed):
             op, t2 = gen_mutate.mutate(rng, t)
             yield {"kind": "mutant:" + op, "build": "asan", "files": [(p, t2)]}
     # 8. corpus for wasm
-    for p, t in corpus[:: (8 if quick else 1)]:
+    for p, t in corpus:
         yield {"kind": "corpus_wasm", "files": [(p, t)], "wasm": True}
 
 
